@@ -294,8 +294,17 @@ def linear_forms(ctx, body, v, local, a_arg, p_arg, depth=0):
         c = iv.const_value(ctx.facts, body, v, o)
         if isinstance(c, float):
             return [{"1": c}]
-        if o["k"] in ("copy", "move") and not o["place"]["p"]:
-            l = o["place"]["l"]
+        if o["k"] in ("copy", "move"):
+            pl = v.through_aggregate(o["place"])
+            if pl["p"]:
+                # `(args).0` of a tuple built once, `*r` of a reference to a scalar local (what an inlined closure reads)
+                r_ = v.root(dict(o, place=pl))
+                if r_.kind in ("arg", "local") and not r_.path:
+                    l = r_.base[1]
+                else:
+                    return None
+            else:
+                l = pl["l"]
             if l == p_arg:
                 return [{"p": 1.0}]
             if l <= body.arg_count:
